@@ -2,6 +2,7 @@ import Driver.Codec
 import PicoSVG.Model.SvgPath
 import PicoSVG.Spec.PathInterp
 import PicoSVG.Spec.Shapes
+import PicoSVG.Spec.PathGrammar
 open PicoSVG Drv
 
 namespace Drv
@@ -81,6 +82,11 @@ def handlePath (fields : List String) : Option String :=
       | .ok cmds => match Spec.interp cmds with
         | none => "SpecReject"
         | some segs => "ok " ++ ";".intercalate (segs.map encSeg))
+  | ["spec", "grammar", d] =>
+    some (match Spec.PathGrammar.parse (unesc d).toList with
+      | none => "reject"
+      | some cmds => "ok " ++ ";".intercalate
+          (cmds.map (fun (c, as) => " ".intercalate (String.singleton c :: as))))
   | ["spec", "shape", k, a] =>
     let segs? : Option (List (Spec.Seg Float)) := match k, decList floatCodec a with
       | "rect", some [x, y, w, h, rx, ry] => some (Spec.rectOutline x y w h rx ry)
